@@ -328,7 +328,7 @@ class DirectButler(Butler):  # numpydoc ignore=PR02
 
         Transactions can be nested.
         """
-        with self._registry.transaction(), self._datastore.transaction():
+        with self._registry.transaction(savepoint=True), self._datastore.transaction():
             yield
 
     def _standardizeArgs(
